@@ -173,7 +173,10 @@ def judge_c11_pairs(rec, snap, by, pairs, bphs, brs):
                 continue
             rec.check(f"lists.no-self-{kind}", ident[0] != ident[1], det)
             per_pair.setdefault((ident[0], ident[1]), []).append(cls)
-            cands = cont.get((i, j), [])
+            # several Residue3D objects may carry one identity (a nucleotide listed in two parts): the contact may
+            # be between any of the objects of the two residues
+            k1, k2 = by.get(g3d.key_of_residue(x.nt1), [i]), by.get(g3d.key_of_residue(x.nt2), [j])
+            cands = [c for a in k1 for b in k2 if a != b for c in cont.get((a, b), [])]
             sure = [c for c in cands if c[2] <= g3d.HBOND_MAX and c[4] >= EPS and c[3] not in (None, "?")]
             fuzzy = [c for c in cands if c[4] < EPS or c[3] == "?"]
             classes = {c[3] for c in sure}
